@@ -109,7 +109,14 @@ static int noted(int k)
 static void raise_sig(int sig)
 {
 	int k = vp_sig_idx(sig), i, before = noted(k);
+	int has = 0, can_note = use_sigfd ? !before : (!vp_sig_write_fail_next && vp_pipe_n < VP_PIPE_CAP);
+	int app0 = vp_sig_app_handled[k] + vp_sig_default_action[k];
+	for (i = 0; i < NEV; i++) if (added[i] && sig_of[i] == sig) has = 1;
 	vp_sig_deliver(sig);
+	if (has) {
+		VP_ASSERT(vp_sig_app_handled[k] + vp_sig_default_action[k] == app0, "C07: a signal that has an added event is not handled by the previous disposition (it bypassed libevent)");
+		if (can_note) VP_ASSERT(noted(k) > before, "C07: a delivery of a signal that has an added event is noted by libevent's mechanism (self-pipe byte / signalfd pending)");
+	}
 	if (noted(k) > before) {
 		if (in_loop) noted_in_loop[k]++;
 		for (i = 0; i < NEV; i++) if (added[i] && sig_of[i] == sig) due[i]++;
@@ -146,6 +153,24 @@ static int same_disposition(const struct sigaction *x, const struct sigaction *y
 }
 static int others_added(int i) { int j; for (j = 0; j < NEV; j++) if (j != i && added[j] && sig_of[j] == sig_of[i]) return 1; return 0; }
 
+/* holds between any two steps: every signal that has an added event is wired to libevent's mechanism -- self-pipe:
+ * libevent's handler is the installed one; signalfd: the signal is blocked and bound to an open signalfd -- and, in
+ * signalfd mode, a signal without added events is not left blocked (the process mask starts empty in this harness):
+ * the blocked set == the signals with signalfd events */
+static void check_wiring(void)
+{
+	int k;
+	if (freed) return;
+	for (k = 0; k < 2; k++) {
+		int has = (added[0] && sig_of[0] == (k ? B : A)) || (added[1] && sig_of[1] == (k ? B : A)) || (added[2] && sig_of[2] == (k ? B : A));
+		if (!use_sigfd) {
+			if (has) VP_ASSERT(vp_sa[k].sa_handler == evsig_handler, "C07: libevent's handler stays installed for every signal that has an added event");
+		} else {
+			VP_ASSERT((vp_sig_blocked[k] != 0) == (has != 0), "C07[signalfd]: the blocked set is exactly the signals that have added events (a blocked signal reaches only the signalfd)");
+			if (has) VP_ASSERT(vp_sigfd_for_sig(k) != NULL, "C07[signalfd]: every signal that has an added event is bound to an open signalfd");
+		}
+	}
+}
 static void step_add(int i)
 {
 	int r;
@@ -159,6 +184,7 @@ static void step_add(int i)
 	} else {
 		VP_ASSERT(vp_sig_blocked[vp_sig_idx(sig_of[i])] && vp_sigfd_for_sig(vp_sig_idx(sig_of[i])) != NULL, "C07: signal is blocked and bound to a signalfd while a signal event is added");
 	}
+	check_wiring();
 }
 static void step_del(int i)
 {
@@ -171,6 +197,7 @@ static void step_del(int i)
 		VP_ASSERT(same_disposition(&vp_sa[k], &orig[k]), "C07: deleting the last event for a signal restores the disposition installed before the first add");
 	else if (!use_sigfd)
 		VP_ASSERT(vp_sa[k].sa_handler == evsig_handler, "C07: handler stays installed while another event for the signal is added");
+	check_wiring();
 }
 /* one raise of the signal; REFUSE before it makes the self-pipe refuse the byte (EAGAIN).  Counts and refusals
  * are fixed by the shape: symbolic pipe contents make evsig_cb's ncaught[] indices symbolic and symex then walks
@@ -180,6 +207,7 @@ static void step_deliver(int sig)
 	__CPROVER_assume(!freed);
 	raise_sig(sig);
 	vp_sig_write_fail_next = 0;
+	check_wiring();
 }
 static void step_refuse(void) { vp_sig_write_fail_next = 1; }
 static void step_loop(void)
@@ -205,6 +233,25 @@ static void step_loop(void)
 #ifdef VP_WIT_TWICE
 	if (calls_loop[0] >= 2) VP_WITNESS("an event called twice for a batch of two deliveries");
 #endif
+	check_wiring();
+}
+/* event_reinit() (what a forked child calls; also legal without fork): the back end is torn down -- evsig_dealloc_()
+ * runs with saved dispositions still live -- and rebuilt, and every added signal is handed to the mechanism again.
+ * Afterwards everything above must still hold, in particular a later del / free must restore the dispositions from
+ * before the FIRST add, for every signal including the highest-numbered one. */
+static void step_reinit(void)
+{
+	int r, i;
+	__CPROVER_assume(!freed);
+	r = event_reinit(base);
+	VP_ASSERT(r == 0, "C07: event_reinit succeeds");
+	if (!use_sigfd) { vp_pipe_rfd = base->sig.ev_signal_pair[0]; vp_pipe_wfd = base->sig.ev_signal_pair[1]; vp_pipe_n = 0; vp_sig_undrained[0] = vp_sig_undrained[1] = 0; }
+	for (i = 0; i < NEV; i++) {
+		due[i] = 0;
+		VP_ASSERT(((sev[i].ev_flags & EVLIST_INSERTED) != 0) == (added[i] != 0), "C07: event_reinit leaves the events' added state unchanged");
+	}
+	check_wiring();
+	VP_WITNESS("event_reinit returned");
 }
 static void step_free(void)
 {
@@ -222,6 +269,7 @@ static void step_free(void)
 #define REFUSE step_refuse();
 #define LOOP step_loop();
 #define FREE step_free();
+#define REINIT step_reinit();
 #ifndef VP_STEPS
 #define VP_STEPS ADD(0) DELIVER(A) LOOP DEL(0)
 #endif
